@@ -58,30 +58,52 @@ def do_import(pid, outdir):
         sh(f"git -C /repo worktree remove --force {wt}")
 
 
+SANDBOX = "/tmp/seedeval"
+
+
+def prepare_sandbox():
+    """an isolated copy of /verif working against its own worktree of /repo, so that evaluating seeded
+    changes never touches /repo (other checks and agents build against it)"""
+    os.makedirs(SANDBOX, exist_ok=True)
+    repo = os.path.join(SANDBOX, "repo")
+    sh(f"git -C /repo worktree remove --force {repo}")
+    rc, out = sh(f"git -C /repo worktree add -q --detach {repo} HEAD")
+    if rc != 0:
+        raise SystemExit(out)
+    verif = os.path.join(SANDBOX, "verif")
+    sh(f"rsync -a --delete --exclude .git --exclude work --exclude replays --exclude evidence {ROOT}/ {verif}/")
+    sh(f"sed -i 's#=> /repo#=> {repo}#' {verif}/harness/go.mod")
+    return repo, verif
+
+
 def do_check(names):
     if not names:
         names = sorted(os.path.basename(p) for p in glob.glob(os.path.join(SEEDED, "*-m*")))
+    repo, verif = prepare_sandbox()
+    env = dict(ENV, VERIF_REPO=repo)
     rows = []
-    for name in names:
-        d = os.path.join(SEEDED, name)
-        meta = json.load(open(os.path.join(d, "meta.json")))
-        pid = meta["property"]
-        rc, out = sh("git -C /repo status --porcelain --untracked-files=no")
-        if out.strip():
-            print("refusing: /repo has local changes:", out); return
-        rca, outa = sh(f"git -C /repo apply {os.path.join(d, 'patch.diff')}")
-        t0 = time.time()
-        try:
-            rcc, outc = sh(f"./check {pid} --tier quick", cwd=ROOT)
-        finally:
-            sh("git -C /repo checkout -- .")
-        lines = [l for l in outc.splitlines() if l.startswith("VIOLATION") or l.startswith("OK ")]
-        caught = any(l.startswith("VIOLATION") for l in lines)
-        concrete = any(l.startswith("VIOLATION") and "no-failing-input-found" not in l for l in lines)
-        meta["check_result"] = {"applied": rca == 0, "caught": caught, "with_concrete_input": concrete, "lines": lines[:4], "wall_s": round(time.time() - t0, 1)}
-        json.dump(meta, open(os.path.join(d, "meta.json"), "w"), indent=1)
-        rows.append((name, pid, meta.get("summary", "")[:110], caught, concrete))
-        print(name, "CAUGHT" if caught else "MISSED", lines[:2])
+    try:
+        for name in names:
+            d = os.path.join(SEEDED, name)
+            meta = json.load(open(os.path.join(d, "meta.json")))
+            pid = meta["property"]
+            sh("git checkout -- . && git clean -fdq", cwd=repo)
+            rca, outa = sh(f"git apply {os.path.join(d, 'patch.diff')}", cwd=repo)
+            t0 = time.time()
+            p = subprocess.run(f"./check {pid} --tier quick", cwd=verif, shell=True, env=env, stdout=subprocess.PIPE, stderr=subprocess.STDOUT, text=True, timeout=3000)
+            outc = p.stdout
+            sh("git checkout -- . && git clean -fdq", cwd=repo)
+            lines = [l for l in outc.splitlines() if l.startswith("VIOLATION") or l.startswith("OK ")]
+            caught = any(l.startswith("VIOLATION") for l in lines)
+            concrete = any(l.startswith("VIOLATION") and "no-failing-input-found" not in l for l in lines)
+            meta["check_result"] = {"applied": rca == 0, "caught": caught, "with_concrete_input": concrete,
+                                    "lines": [l.replace(verif, "/verif") for l in lines[:4]], "wall_s": round(time.time() - t0, 1),
+                                    "ran": f"git apply seeded/{name}/patch.diff (in an isolated worktree of /repo) && ./check {pid} --tier quick"}
+            json.dump(meta, open(os.path.join(d, "meta.json"), "w"), indent=1)
+            rows.append((name, pid, meta.get("summary", "")[:110], caught, concrete))
+            print(name, "CAUGHT" if caught else "MISSED", lines[:2])
+    finally:
+        sh(f"git -C /repo worktree remove --force {repo}")
     with open(os.path.join(SEEDED, "RESULTS.md"), "a") as f:
         for r in rows:
             f.write(f"| {r[0]} | {r[1]} | {r[2]} | {'caught' if r[3] else 'MISSED'} | {'concrete input' if r[4] else ('obligation/correspondence only' if r[3] else '-')} |\n")
